@@ -11,6 +11,8 @@ use std::collections::hash_map::DefaultHasher;
 use std::collections::HashMap;
 use std::hash::{Hash, Hasher};
 
+const MAXC_: u32 = 0x2FFFF;
+
 fn hash_of(t: RegLan) -> u64 {
     let mut h = DefaultHasher::new();
     t.hash(&mut h);
@@ -196,6 +198,52 @@ fn run_history(m: &mut ReManager, prog: &Program, noise_n: usize, rng: &mut Rng,
                 }
             }
             Err(_) => rep.inc("skipped_refdfa_budget"),
+        }
+    }
+    // answers, not only terms: membership of fixed probe words in every result and its complement, asked in a
+    // history-dependent order (the derivative cache then holds different entries in different histories)
+    {
+        let atoms = ctx.atoms().clone();
+        let mid = atoms.lo[atoms.n() / 2];
+        let probes: Vec<Vec<u32>> = vec![vec![], vec![0], vec![MAXC_], vec![0, MAXC_], vec![MAXC_, 0], vec![mid], vec![mid, 0], vec![MAXC_, mid, MAXC_]];
+        let mut order: Vec<(usize, bool, usize)> = Vec::new();
+        for k in 0..terms.len() {
+            for neg in [false, true] {
+                for w in 0..probes.len() {
+                    order.push((k, neg, w));
+                }
+            }
+        }
+        rng.shuffle(&mut order);
+        order.truncate(if thorough { 1500 } else { 500 });
+        for (k, neg, w) in order {
+            let d = match ctx.dfa(&refs[k]) {
+                Ok(d) => d,
+                Err(_) => continue,
+            };
+            let wd = &probes[w];
+            let want = d.accepts(&ctx.atoms().word_of(wd)) != neg;
+            let t = if neg { m.complement(terms[k]) } else { terms[k] };
+            rep.inc("history_membership_answers_compared");
+            match guard(|| m.str_in_re(&aws_smt_strings::smt_strings::SmtString::from(&wd[..]), t)) {
+                Ok(got) => {
+                    if got != want {
+                        rep.violation(
+                            "history-answer",
+                            "history-answer:str_in_re",
+                            format!("[{}] after {} unrelated operations and other membership queries: str_in_re({}, {}{}) = {} but the construction says {}", label, noise_n, show_str(wd), if neg { "complement of " } else { "" }, term_text(terms[k]), got, want),
+                            KIND_MGR,
+                            &case,
+                            seed,
+                        );
+                        return None;
+                    }
+                }
+                Err(msg) => {
+                    rep.violation("history-answer", "history-answer:panic", format!("str_in_re panicked: {}", msg), KIND_MGR, &case, seed);
+                    return None;
+                }
+            }
         }
     }
     if !store_walk(m, &mut ctx, rep, rng, KIND_MGR, &case, seed, thorough) {
